@@ -26,7 +26,7 @@ from vk.registry import bounded, contract
 
 LEVEL = "proof"
 TRUSTED = [
-    "System.set_new_initial_state is emulated by what it does to the contributions: contr.q0 / u0 / t0 are replaced and assembler_callback runs again (the consistent-initial-condition solve is C16)",
+    "in the joint / contact contracts System.set_new_initial_state is emulated by what it does to the contributions (contr.q0 / u0 / t0 replaced, assembler_callback again); the real method itself is executed in its own contract on a real System with contributions of every coordinate kind (the consistent-initial-condition solve is C16)",
     "the second configuration is the first one moved rigidly (and rotated about the joint axis for Revolute): an admissible state of the same mechanism",
 ]
 EXPLANATION = "symbolic native execution of the real assembler callbacks twice on the same objects; equality of the joint functions before and after re-assembly; bounded stand-in for the trajectory clause"
@@ -206,3 +206,53 @@ def b_restart(tier, seed):
             seen.add(f["what"])
             out.append(f)
     return {"cases": cases, "distinct": cases, "failures": out, "bound": "double pendulum with revolute joints, spring on a joint and a (far) sphere-plane contact; Moreau and Rattle; split steps enumerated"}
+
+
+# --------------------------------------------------------------------------- the real System.set_new_initial_state
+@contract("C24", "System.set_new_initial_state/every contribution receives its slice of the new state", samples=0, replayable=False, timeout=60)
+def c_set_new_initial_state(k):
+    """executed for real on a real System whose contributions have position AND velocity coordinates (bodies), position
+    coordinates only (internal states: MaxwellElement's damper elongation, PIDcontroller's integral) or none: after
+    set_new_initial_state(q, u, t) the assembled initial state IS (q, u, t) and every contribution holds its own slice"""
+    if not k.sym:
+        from vk import kit as K
+
+        raise K.Reject("symbolic only")
+    import cardillo.system as csys
+    from vk import npshim
+    from vk import sym as S
+
+    k.covers(csys.System.set_new_initial_state)
+
+    class C:
+        def __init__(self, name, nq=None, nu=None):
+            self.name = name
+            if nq is not None:
+                self.nq, self.q0 = nq, np.arange(nq, dtype=float) + 10 * len(name)
+            if nu is not None:
+                self.nu, self.u0 = nu, np.arange(nu, dtype=float) - 5.0
+
+    with npshim.active(True), k.spec():
+        sysm = csys.System()
+        parts = [C("body", 3, 2), C("internal_state", 1, None), C("massless", None, None), C("body2", 2, 2), C("internal_state2", 2, None)]
+        sysm.add(*parts)
+        saved = csys.consistent_initial_conditions
+        csys.consistent_initial_conditions = lambda system, *a_, **kw: (system.t0, system.q0, system.u0, None, None, None, None, None, None, None)
+        try:
+            sysm.assemble()
+            q_new, u_new = S.symarray("q_new", sysm.nq), S.symarray("u_new", sysm.nu)
+            layout = {c.name: (getattr(c, "my_qDOF", None), getattr(c, "my_uDOF", None)) for c in parts}
+            sysm.set_new_initial_state(q_new, u_new, t0=1.5)
+        finally:
+            csys.consistent_initial_conditions = saved
+        k.prove("the re-assembled system has the same sizes", sysm.nq == 8 and sysm.nu == 4)
+        k.prove_eq("assembled initial configuration = the state passed in", sysm.q0, q_new)
+        k.prove_eq("assembled initial velocity = the state passed in", sysm.u0, u_new)
+        k.prove("initial time = the time passed in", float(sysm.t0) == 1.5)
+        for c in parts:
+            qd, ud = layout[c.name]
+            if qd is not None:
+                k.prove(f"{c.name}: same position DOFs after re-assembly", np.array_equal(c.my_qDOF, qd))
+                k.prove_eq(f"{c.name}: q0 = its slice of the new configuration", c.q0, q_new[qd])
+            if ud is not None:
+                k.prove_eq(f"{c.name}: u0 = its slice of the new velocity", c.u0, u_new[ud])
